@@ -99,11 +99,19 @@ class tar_syncer(http_syncer, base.ExternalSyncer):
 
         # TODO: verify gpg data if it exists
 
+        moved = False
         try:
             if os.path.exists(self.basedir):
                 # move old repo out of the way if it exists
                 os.rename(self.basedir, self.tempdir_old)
+                moved = True
             # move new, unpacked repo into place
             os.rename(self.tempdir, self.basedir)
         except OSError as e:
+            if moved:
+                # put the old repo back instead of letting the exit handlers delete it
+                try:
+                    os.rename(self.tempdir_old, self.basedir)
+                except OSError:
+                    pass
             raise base.SyncError(f"failed to update repo: {e.strerror}") from e
